@@ -132,7 +132,7 @@ func Scalar(t *rapid.T, b []byte, p Profile) []byte {
 	}
 }
 
-var keyPool = []string{`"k"`, `"a"`, `"b"`, `"a"`, `"k"`, `""`, `"a\n"`, `"k"`, `"\ud800"`, "\"\xff\"", `"�"`, `"é"`, `"é"`}
+var keyPool = []string{`"a\\n"`, `"\\u0041"`, `"\u0041"`, `"C:\\temp"`, `"C:\temp"`, `"k"`, `"a"`, `"b"`, `"a"`, `"k"`, `""`, `"a\n"`, `"k"`, `"\ud800"`, "\"\xff\"", `"�"`, `"é"`, `"é"`}
 
 // Key appends an object key (from a small pool so duplicates, raw-equal and
 // escaped-equal, are frequent; sometimes a free string).
